@@ -40,13 +40,19 @@ impl Session {
             crate::Response::InternalServerError()
         }
 
-        match timeout_in(Duration::from_secs(crate::CONFIG.keepalive_timeout()), async {
+        let upgrade = {
             let mut req = Request::init(self.ip);
             let mut req = unsafe {Pin::new_unchecked(&mut req)};
             loop {
                 req.clear();
-                match req.as_mut().read(&mut self.connection).await {
-                    Ok(Some(())) => {
+                /* the Keep-Alive timeout bounds the wait for a request, not the life of the session:
+                   a handler or a streamed response may take longer, and so may a busy connection as a whole */
+                match timeout_in(
+                    Duration::from_secs(crate::CONFIG.keepalive_timeout()),
+                    req.as_mut().read(&mut self.connection)
+                ).await {
+                    None => break None,
+                    Some(Ok(Some(()))) => {
                         /* `Connection` is a list of case-insensitive options (RFC 9110 7.6.1): `close`, `Close, TE`, `keep-alive, close`... */
                         let close = req.headers.Connection().is_some_and(|options|
                             options.split(',').any(|option| option.trim().eq_ignore_ascii_case("close"))
@@ -61,19 +67,20 @@ impl Session {
                         };
                         let upgrade = res.send(&mut self.connection).await;
 
-                        if !upgrade.is_none() {break upgrade}
-                        if close {break Upgrade::None}
+                        if !upgrade.is_none() {break Some(upgrade)}
+                        if close {break Some(Upgrade::None)}
                     }
-                    Ok(None) => break Upgrade::None,
-                    Err(res) => {
+                    Some(Ok(None)) => break Some(Upgrade::None),
+                    Some(Err(res)) => {
                         /* a refused request is answered and ends the session: where it ends is not known,
                            so nothing after it may be read as the next request ( RFC 9112 2.2 ) */
                         res.send(&mut self.connection).await;
-                        break Upgrade::None
+                        break Some(Upgrade::None)
                     }
                 }
             }
-        }).await {
+        };
+        match upgrade {
             None => crate::warning!("[WARNING] \
                 Session timeouted. In Ohkami, Keep-Alive timeout \
                 is set to 42 seconds by default and is configurable \
